@@ -203,12 +203,10 @@ func main() {
 		}
 	}
 
-	// the history phase (history.go) runs in subprocesses and judges with an explicit location: it does not read
-	// time.Local and runs beside the main enumeration
-	histDone := make(chan struct{})
+	// the histories (history.go) run in subprocesses beside the main enumeration; they are judged after it
+	histDone := make(chan func())
 	go func() {
-		defer close(histDone)
-		historyPhase(r, thorough, violAt)
+		histDone <- historyPhase(r, thorough, violAt)
 	}()
 
 	for zi, z := range zones {
@@ -445,7 +443,7 @@ func main() {
 		r.Set("zones_done", zi+1)
 	}
 	time.Local = time.UTC
-	<-histDone
+	(<-histDone)() // judge the histories
 	for key, v := range seen {
 		r.Violation(key, v.what, v.rep)
 		for i := 1; i < v.count; i++ {
